@@ -283,6 +283,22 @@ def parts(tier):
     ps.append(InputPart("erase-points-far-from-zero", gen_pt_big, lambda c: _check_pt(c, True),
                         rule="point subsets (distinct and equal labels) and regions on the far-from-zero grid, bit-exact", bounds={}))
 
+    def gen_size():
+        for n, layout, e in D.size_family(quick):
+            hi = e[-1][1] + 1.0
+            for a, b in D.size_windows(D.size_cuts(e)):
+                if a >= 0.0:
+                    yield (e, 0.0, hi, a, b)
+        for n in (D.SIZES_QUICK if quick else D.SIZES_THOROUGH):
+            p = D.long_points(n, labels=("x",) if n % 2 else None)
+            for a, b in D.size_windows(D.size_cuts(p), near=4, far=2):
+                yield ("P", p, 0.0, n + 1.0, a, b)
+
+    ps.append(InputPart("erase-size-sweep", gen_size, lambda c: _check_pt(c[1:], True) if c[0] == "P" else _check_iv(c, True),
+                        rule="interval tiers of %s entries (gapped and contiguous) and point tiers of those sizes x regions whose edges lie just before / at / "
+                             "inside / at the end of the entries at both ends, at n/4, n/2, 3n/4 and at indices 8-10, 15-16, 255-257: exact model, bit for bit"
+                             % (list(D.SIZES_QUICK if quick else D.SIZES_THOROUGH),), bounds={}, chunk=4))
+
     tgrid = D.unit_grid(5)
     tsets = D.interval_sets(tgrid, 2)
     tpts = D.point_sets(tgrid, 2)
